@@ -8,7 +8,7 @@
   loop variable names, `use` scope), every inventory and every `World` (globals, values of the opaque atoms,
   all other field accesses) — no bound on sizes.
 -/
-import IcingaProofs.C16.Lemmas
+import IcingaProofs.C16.Order
 
 namespace Icinga.C16
 
@@ -308,24 +308,129 @@ example :
       = .accepted [mkCreated 0 rs (.host "h0") ⟨"a", [("k", .str "a")]⟩, mkCreated 1 rn (.service "h0" "s-a") ⟨"", []⟩] := by
   decide
 
+/-! ## The order in which the configuration is written
+
+  `order_independent(_full)` above permute whole rules and objects.  The statements INSIDE a rule body can be permuted
+  as well: the parser collects the `assign where` and the `ignore where` expressions separately and combines them at
+  the end of the rule (`collectStmts`, `Rule.filter`), so the filters of `assign a1; ignore i; assign a2` and of
+  `assign a2; assign a1; ignore i` differ only in the order of the operands of `||`.  Because `||` short-circuits,
+  that order decides whether an operand that raises is reached at all; the property's reading ("the assign expression
+  is true and the ignore expression is not") is defined exactly where every expression has a value, and there the order
+  is immaterial. -/
+
+/-- **statement_order_independent.**  Two ways of writing the same configuration — the rules in any order, each rule's
+    `assign where` / `ignore where` statements in any order, hosts and services in any order — load alike and create
+    the same set of objects, with and without the name index, wherever the property's reading is defined (every assign
+    and ignore expression has a value on every target and `for` instance, in both rounds of the load). -/
+theorem statement_order_independent (w : World) (rs rs' : Rules) (inv inv' : Inventory)
+    (hr : RulesStmtEquiv rs rs') (hi : InvEquiv inv inv') (hdef : (expectedCreated w rs inv).isSome = true) :
+    (plainFull w rs inv).Equiv (plainFull w rs' inv') ∧ (indexedFull w rs inv).Equiv (indexedFull w rs' inv') :=
+  ⟨plainFull_stmtEquiv hr hi hdef, indexedFull_stmtEquiv hr hi hdef⟩
+
+/-- **statement_permutation.**  Permuting the statements of a rule body yields the same rule up to the order of its two
+    expression lists (the relation `statement_order_independent` quantifies over), however the two kinds interleave. -/
+theorem statement_permutation (r : Rule) (ss ss' : List Stmt) (h : ss.Perm ss') :
+    RuleStmtEquiv (r.withStmts ss) (r.withStmts ss') :=
+  ruleStmtEquiv_withStmts r h
+
+/-- not vacuous: `assign where host.name == "h0"; ignore where host.name == "h1"; assign where true` and the same
+    statements in reverse order, on h0 and h1 (listed in either order): defined, and only `h0!n` is created -/
+example :
+    let r : Rule := { src := .notification, tgt := .host, name := "n", loop := none, assign := [], ignore := [] }
+    let ss := [Stmt.assign (hostNameIs "h0"), .ignore (hostNameIs "h1"), .assign (.lit (.bool true))]
+    (expectedCreated cexWorld [(0, r.withStmts ss)] ⟨["h0", "h1"], []⟩).isSome = true ∧
+    indexedFull cexWorld [(0, r.withStmts ss)] ⟨["h0", "h1"], []⟩
+      = .accepted [mkCreated 0 (r.withStmts ss) (.host "h0") ⟨"", []⟩] ∧
+    indexedFull cexWorld [(0, r.withStmts ss.reverse)] ⟨["h1", "h0"], []⟩
+      = .accepted [mkCreated 0 (r.withStmts ss.reverse) (.host "h0") ⟨"", []⟩] := by decide
+
+/-- the hypothesis is needed, in the model as in the code: `assign where true; assign where nosuchvar` loads (the second
+    operand of `||` is never evaluated), `assign where nosuchvar; assign where true` is rejected -/
+theorem statement_order_counterexample :
+    let r : Rule := { src := .notification, tgt := .host, name := "n", loop := none, assign := [], ignore := [] }
+    let ss := [Stmt.assign (.lit (.bool true)), .assign (.var "nosuchvar")]
+    plainFull cexWorld [(0, r.withStmts ss)] ⟨["h0"], []⟩ = .accepted [mkCreated 0 (r.withStmts ss) (.host "h0") ⟨"", []⟩] ∧
+    plainFull cexWorld [(0, r.withStmts ss.reverse)] ⟨["h0"], []⟩ = .rejected ∧
+    expectedCreated cexWorld [(0, r.withStmts ss)] ⟨["h0"], []⟩ = none := by decide
+
+/-! ## How often the API fast path returns an object (F-C16d)
+
+  FULL STATEMENT (violated by the unchanged code): for every filter, `filter_vars`, type and inventory
+  `specApi … (modelApiObs …) = none`, i.e. also the NUMBER of entries `GetFilterTargets` returns — hence how often the
+  object query lists an object and how often an action is run on it — is the same with and without the fast path.
+  The fast path pushes one entry per name the recogniser collected (filterutility.cpp:333-339,349-355): a filter that names an
+  existing object twice (`host.name == "h1" || host.name == "h1"`, typical for generated filters) returns it twice, the
+  evaluation of the same filter once.  Proved below: the statement holds whenever the looked-up names are pairwise
+  distinct; the counterexample is the duplicate. -/
+
+/-- **api_multiplicity_partial.**  When the names the fast path looks up are pairwise distinct (and object names are
+    unique), `GetFilterTargets` returns the same number of entries with and without the fast path. -/
+theorem api_multiplicity_partial (w : World) (fvars : Option (List (String × Val))) (ty : TgtType) (e : Expr)
+    (inv : Inventory) (hnav : NavOk w ty) (hinv : (targets inv ty).Nodup)
+    (hnd : ∀ names, fastPathNames w fvars ty e = some names → names.Nodup) :
+    (apiTargets w fvars ty e inv).map List.length = (apiSlow w fvars ty e inv).map List.length := by
+  cases hn : fastPathNames w fvars ty e with
+  | none => rw [apiTargets_eq_slow_of_no_names hn]
+  | some names =>
+    have heq := api_fast_path_eq_plain w fvars ty e inv hnav
+    rw [apiTargets_eq_of_names hn] at heq ⊢
+    cases hs : apiSlow w fvars ty e inv with
+    | none => rw [hs] at heq; exact absurd heq (by simp [ApiEquiv])
+    | some l =>
+      rw [hs] at heq
+      simp only [ApiEquiv] at heq
+      have h1 : (names.filter fun t => (targets inv ty).contains t).Nodup := (hnd names hn).filter _
+      have h2 : l.Nodup := List.Nodup.sublist (apiSlow_sublist hs) hinv
+      simp only [Option.map_some, Option.some.injEq]
+      exact ((List.perm_ext_iff_of_nodup h1 h2).mpr heq).length_eq
+
+/-- hypotheses satisfiable with a fast path that returns something: `host.name == "h1" || host.name == "h0"` -/
+example :
+    let e := Expr.or (hostNameIs "h1") (hostNameIs "h0")
+    fastPathNames cexWorld none .host e = some [.host "h1", .host "h0"] ∧ (targets ⟨["h0", "h1"], []⟩ .host).Nodup ∧
+      apiTargets cexWorld none .host e ⟨["h0", "h1"], []⟩ = some [.host "h1", .host "h0"] := by decide
+
+/-- **api_multiplicity_counterexample** (F-C16d).  `host.name == "h1" || host.name == "h1"` on hosts h0, h1: the fast
+    path returns h1 twice, evaluation once; the object query lists it twice and an action runs twice on it. -/
+theorem api_multiplicity_counterexample :
+    let e := Expr.or (hostNameIs "h1") (hostNameIs "h1")
+    let inv : Inventory := ⟨["h0", "h1"], []⟩
+    apiTargets cexWorld none .host e inv = some [.host "h1", .host "h1"] ∧
+    apiSlow cexWorld none .host e inv = some [.host "h1"] ∧
+    specApi cexWorld none .host e inv (modelApiObs cexWorld none .host e inv) = some .apiMultiplicityIndependent := by
+  decide
+
 /-! ## The model's whole trace meets the specification
 
   `modelObs` is what the model says the harness observes of one configuration: as written = `indexedFull`,
-  every filter wrapped = `plainFull`, 16 commit threads = the same. -/
+  every filter wrapped = `plainFull`, 16 commit threads = the same, the permuted text = the same two loads of
+  `permRules` / `permInv`. -/
 
 /-- **model_load_meets_spec.**  For every configuration the model's observable trace satisfies the executable
-    specification of the property: fast-path independence, parallel independence, and — wherever the property's
-    reading is defined — exactly the matching objects with the target in scope (whatever cases `silentIf`
-    excludes). -/
+    specification of the property: fast-path independence, parallel independence, independence of the order of rules,
+    statements and objects, and — wherever the property's reading is defined — exactly the matching objects with the
+    target in scope (whatever cases `silentIf` excludes). -/
 theorem model_load_meets_spec (w : World) (rules : Rules) (inv : Inventory) (silentIf : List ObjObs → Bool) :
     specLoad w rules inv silentIf (modelObs w rules inv) = none :=
-  model_load_meets_spec_aux w rules inv silentIf fun p _ => indexSafe_all _ p.2
+  model_load_meets_spec_aux w rules inv silentIf
 
-/-- … and the API model satisfies `specApi`. -/
+/-- **model_api_meets_spec.**  The API model satisfies the set-valued clauses of `specApi` for every query. -/
 theorem model_api_meets_spec (w : World) (fvars : Option (List (String × Val))) (ty : TgtType) (e : Expr)
     (inv : Inventory) (hnav : NavOk w ty) :
-    specApi w fvars ty e inv { fast := apiTargets w fvars ty e inv, slow := apiSlow w fvars ty e inv } = none :=
-  model_api_meets_spec_aux w fvars ty e inv (api_fast_path_eq_plain w fvars ty e inv hnav)
+    specApiSets w fvars ty e inv (modelApiObs w fvars ty e inv) = none :=
+  model_api_meets_spec_aux w fvars ty e inv _ (api_fast_path_eq_plain w fvars ty e inv hnav)
+
+/-- **model_api_meets_spec_partial.**  … and the whole of `specApi`, including the multiplicity clause, when the names
+    the fast path looks up are pairwise distinct (see `api_multiplicity_counterexample` for the other case). -/
+theorem model_api_meets_spec_partial (w : World) (fvars : Option (List (String × Val))) (ty : TgtType) (e : Expr)
+    (inv : Inventory) (hnav : NavOk w ty) (hinv : (targets inv ty).Nodup)
+    (hnd : ∀ names, fastPathNames w fvars ty e = some names → names.Nodup) :
+    specApi w fvars ty e inv (modelApiObs w fvars ty e inv) = none := by
+  have hlen := api_multiplicity_partial w fvars ty e inv hnav hinv hnd
+  unfold specApi
+  rw [model_api_meets_spec w fvars ty e inv hnav]
+  simp only [specApiMult, modelApiObs, queryResults, hlen, actionResults_eq_of_length hlen, beq_self_eq_true,
+    Bool.and_self, if_true]
 
 /-! ## The specification predicate is not vacuous -/
 
@@ -349,6 +454,11 @@ example :
     specApi cexWorld none .host (hostNameIs "h0") inv { fast := some [.host "h0"], slow := some [] }
       = some .apiFastpathIndependent ∧
     specApi cexWorld none .host (hostNameIs "h0") inv { fast := some [.host "h1"], slow := some [.host "h1"] }
-      = some .apiNoMissing := by decide
+      = some .apiNoMissing ∧
+    specLoad cexWorld [(0, r)] inv (fun _ => false) { plain1 := some [good], wrap1 := some [good], perm1 := some (some []) }
+      = some .orderIndependent ∧
+    specApi cexWorld none .host (hostNameIs "h0") inv
+        { fast := some [.host "h0"], slow := some [.host "h0"], counts := some ⟨some 2, some 1, some 2, some 1, some 2, some 1⟩ }
+      = some .apiMultiplicityIndependent := by decide
 
 end Icinga.C16
